@@ -89,6 +89,52 @@ def premises(ctx, engine, m):
                    {"engine": engine, "nodes": [str(v) for v in st.nodes()], "edges": [[str(u), str(v)] for u, v in st.edges()]}, concrete=False)
 
 
+EQ_CMDS = {"kfd", "kfdw", "kpc"}        # commands whose handler also offers <cmd>_eq (verified comparison)
+
+
+def vartok(v):
+    return [v[0], len(v) - 1, list(v[1:])]
+
+
+def impl_lp_tokens(impl):
+    """the LP read back from the solver (lpdump.dump_impl) on the wire of lp.ml.in's next_milp; None if it has an infinite bound"""
+    cols = []
+    for v, (lb, ub, isint) in impl["cols"].items():
+        if lb is None or ub is None:
+            return None
+        cols.append([vartok(v), common.qtok(lb), common.qtok(ub), bool(isint)])
+    rows = []
+    for terms, lo, hi in impl["rows"]:
+        tt = [[vartok(v), common.qtok(c)] for v, c in terms]
+        if not terms and lo is None and hi is None:
+            continue                                   # a row without variables that holds
+        if lo is not None and hi is not None and lo == hi:
+            rows.append([2, common.qtok(lo), len(tt), tt])
+        else:
+            if lo is not None:
+                rows.append([1, common.qtok(lo), len(tt), tt])
+            if hi is not None:
+                rows.append([0, common.qtok(hi), len(tt), tt])
+    obj = [[vartok(v), common.qtok(c)] for v, c in impl["obj"].items()]
+    return [len(cols), cols, len(rows), rows, len(obj), obj, impl["sense"] == "max"]
+
+
+def verified_equal(ctx, engine, impl, req):
+    """E1 decided by the EXTRACTED VERIFIED checker LinEquiv.milp_equiv_b (theorem milp_equiv_sound: equal satisfying assignments,
+    equal objective): the model's LP is rebuilt from the same request, the implementation's LP is sent along."""
+    cmd, _, rest = req.partition(" ")
+    if cmd not in EQ_CMDS:
+        return None
+    t = impl_lp_tokens(impl)
+    if t is None:
+        ctx.count(engine, "verified_equivalence_not_representable"); return None
+    out = ctx.model.run([cmd + "_eq " + rest + " " + common.toks(t)])[0].strip()
+    ctx.count(engine, "verified_equivalence_checked")
+    if out == "1":
+        ctx.count(engine, "verified_equivalent"); return True
+    ctx.count(engine, "verified_not_equivalent"); return False
+
+
 def compare(ctx, engine, name, m, impl, req, args, what=("cols", "rows", "obj", "sense")):
     """returns the diff list; bookkeeping on ctx"""
     try:
@@ -98,6 +144,18 @@ def compare(ctx, engine, name, m, impl, req, args, what=("cols", "rows", "obj", 
     out = ctx.model.run([req], multiline=True)[0]
     model = lpdump.parse_model(out)
     d = lpdump.diff(impl, model, what=what)
+    if set(what) >= {"cols", "rows", "obj", "sense"}:
+        try:
+            ve = verified_equal(ctx, engine, impl, req)
+        except Exception as e:
+            ve = None; ctx.report(f"{engine}: verified LP comparison crashed: {e!r}", {"engine": engine}, concrete=False)
+        if ve is not None and ve != (not d):
+            # the Python diff and the verified checker disagree: trust the verified one, and say so
+            ctx.count(engine, "python_diff_and_verified_checker_disagree")
+            if ve is False and not d:
+                d = ["the verified checker LinEquiv.milp_equiv_b rejects the equivalence of the two LPs (the Python diff saw none)"]
+            elif ve is True and d:
+                ctx.notes.append({"verified_checker_accepts_although_python_diff_reports": d[:3]}); d = []
     ctx.count(engine, "cases"); ctx.count(engine, "rows_compared", len(impl["rows"])); ctx.count(engine, "cols_compared", len(impl["cols"]))
     if d:
         ctx.count(engine, "disagreements")
